@@ -70,6 +70,15 @@ def cases(rng: random.Random, tier: str):
     for _ in range(n_trees):
         g = zoo.Gen(rng, origins=rng.random() < 0.3, share=0.0)
         root = g.tree(rng.choice([1, 2, 4, 8, 16, 40]))
+        keep = None
+        if rng.random() < 0.3:
+            # history: a Tree over an equal tree was built before and is still referenced; that tree was detached and
+            # the one queried now is its duplicate, whose nodes took over the freed ids (all registered, no object twice)
+            old_root = root
+            keep = (old_root, Tree(old_root), old_root.to_tree())
+            old_root.detach()
+            root = old_root.duplicate()
+            del old_root
         nodes = [root] + [c for (c, p, f, i) in zoo.positions(root)]
         # content-identical twins inside the tree: duplicate a random subtree into a Tup next to it
         if rng.random() < 0.5 and len(nodes) > 1:
@@ -141,7 +150,7 @@ def cases(rng: random.Random, tier: str):
             q([A("anc"), tk(n)], lambda: list(t.get_ancestors(n)), lambda l: [tk(x) for x in l])
         line = dumps([A("tree-queries"), zoo.class_table(), orgs.sexp(), [A("tree"), tree_s],
                       [A("foreign")] + foreign_s, [A("queries")] + qs])
-        desc = zoo.show(root) + f" foreign={len(foreign)}"
+        desc = zoo.show(root) + f" foreign={len(foreign)}" + (" [duplicate of a detached tree whose Tree object is still alive]" if keep else "")
         cv.__exit__()
         yield Case("tree-queries", line, dumps(real), len(nodes) >= 4, desc + f" TRACE_LOGGING={cv.on}", sig="tree|queries")
         # oracle on get_xpath
